@@ -13,6 +13,11 @@ R3  yy_scan_bytes scans a private copy: the buffer handed to yy_scan_buffer is t
 R4  flush is local and complete: yy_flush_buffer(b) stores only through b; on every path with b != NULL it stores
     yy_n_chars = 0, yy_ch_buf[0] = yy_ch_buf[1] = 0, yy_buf_pos = &yy_ch_buf[0], yyatbol = 1 and
     yy_buffer_status = YY_BUFFER_NEW (the value yylex tests for); it calls yy_load_buffer_state only under b == current.
+R5  yyensure_buffer_stack leaves room for the push that follows (growth test evaluated over small top/max).
+R6  push only if the top slot is occupied, otherwise replace it: in yypush_buffer_state the increment of
+    yy_buffer_stack_top is control dependent on the non-null edge of a test of the element
+    yy_buffer_stack[yy_buffer_stack_top] (directly, through the yy_current_buffer() macro or the function of that name,
+    whose body is checked) - a test of the stack pointer itself does not count.
 """
 import re
 import ir, flow, variants
@@ -408,13 +413,87 @@ def r5(ctx, sc):
         rep.ok('C11.R5', '%s yyensure_buffer_stack: the growth test leaves top + 1 < max on the no-growth side (%d evaluations)' % (v.name, n_eval))
     return 1
 
+# ---------------------------------------------------------------- R6
+
+def _is_top_load(sc, fn, res, v):
+    return is_load_of_var(sc, fn, res, v, 'yy_buffer_stack_top')
+
+def top_slot_loads(sc, fn, res, v, deep=False):
+    """loads of yy_buffer_stack[yy_buffer_stack_top] (index = the top register itself) in the slice of value v"""
+    out = []
+    for d in (S.deep_slice(fn, v) if deep else flow.value_slice(fn, flow.strip_casts(fn, v))):
+        if d.op != 'load' or not sc.slot(res.loc(d.ops[0])): continue
+        g = fn.def_of(d.ops[0])
+        af = S.affine(fn, g.ops[-1], lambda val: _is_top_load(sc, fn, res, val)) if g is not None and g.op == 'getelementptr' else None
+        if af is not None and af[1] == 0: out.append(d)
+    return out
+
+def returns_top_slot(sc, g):
+    """helper g (yy_current_buffer) returns the element yy_buffer_stack[yy_buffer_stack_top], or NULL, on every path"""
+    res = ir.Resolver(g); seen = 0
+    vals = [x.ops[0] for x in g.ins if x.op == 'ret' and x.ops]
+    for v in vals:
+        ok = False
+        for d in S.deep_slice(g, v):
+            if d.op == 'load' and top_slot_loads(sc, g, res, ('reg', d.res)): ok = True
+        if v == ('null',): ok = True
+        if not ok: return False
+        seen += 1
+    return seen > 0
+
+def r6(ctx, sc):
+    """R6: "only push if top exists, otherwise replace top".  In yypush_buffer_state every increment of yy_buffer_stack_top is
+    control dependent on the non-null edge of a test of the CURRENT TOP SLOT - the element yy_buffer_stack[yy_buffer_stack_top],
+    loaded directly, through the yy_current_buffer() macro, or returned by the yy_current_buffer() function (whose body is
+    checked).  A test of the stack pointer itself does not count: it is non-null whenever yyensure_buffer_stack() has run, so a
+    push onto an empty top slot (after yy_delete_buffer(YY_CURRENT_BUFFER), or before the first yylex) would stack the new
+    buffer above the hole and the matching pop would uncover a NULL current buffer."""
+    rep = ctx.rep; v = sc.v
+    f = sc.fn('yypush_buffer_state')
+    if f is None: return 0
+    res = ir.Resolver(f); c0 = sc.prog.cfg(f, cut=False)
+    incs = []
+    for x in stores_of(sc, f, 'yy_buffer_stack_top'):
+        af = S.affine(f, x.ops[0], lambda val: _is_top_load(sc, f, res, val))
+        if af is not None and af[1] > 0: incs.append(x)
+    if not incs: rep.broken('C11.R6: yypush_buffer_state of %s never increments yy_buffer_stack_top' % v.name)
+    key = sc.key('C11.R6', 'yypush_buffer_state', 'push-guard-tests-top-slot')
+    n = 0
+    for x in incs:
+        n += 1
+        good = None; other = None
+        for br, t in c0.control_deps_closure(x.blk):
+            bn = flow.branch_on_null(f, br) if br.op == 'br' else None
+            if bn is None: continue
+            if t.name != bn[2]: other = other or br; continue    # the increment is on the null side of this test
+            p = flow.strip_casts(f, bn[0])
+            d = f.def_of(p)
+            if top_slot_loads(sc, f, res, p): good = br; break
+            if d is not None and d.op in ('call', 'invoke') and sc.callee(d) == 'yy_current_buffer' and all(returns_top_slot(sc, g) for g in sc.fns('yy_current_buffer')) and sc.fns('yy_current_buffer'):
+                good = br; break
+            other = other or br                                  # (the nearest one is named in the report)
+        if good is not None:
+            rep.ok('C11.R6', '%s yypush_buffer_state: ++yy_buffer_stack_top@%s only on the non-null edge of the test of the top slot @%s' % (v.name, x.line, good.line))
+        else:
+            what = 'no null test at all'
+            if other is not None:
+                ls = [ir.loc_str(l) for d, l in flow.cond_loads(f, other, res)]
+                what = 'a test of %s' % (', '.join(ls) or 'something else')
+            rep.fail('C11.R6', key, where(x), 'yypush_buffer_state increments yy_buffer_stack_top under %s, not under a test that the current top slot '
+                     'yy_buffer_stack[yy_buffer_stack_top] is occupied: pushing while the top slot is empty (after yy_delete_buffer(YY_CURRENT_BUFFER), or before the first '
+                     'yylex()) stacks the new buffer above the hole; the matching yypop_buffer_state() then leaves no current buffer and the input of the buffers below is lost '
+                     '[variant %s]' % (what, v.name), variant=v.describe(),
+                     replay_input='in an action: yy_delete_buffer(YY_CURRENT_BUFFER); yypush_buffer_state(yy_create_buffer(f, YY_BUF_SIZE)); ... <<EOF>> { yypop_buffer_state(); if (!YY_CURRENT_BUFFER) yyterminate(); } '
+                                  '-- with an including file below, its remaining input must still be scanned after the pop')
+    return n
+
 # ---------------------------------------------------------------- driver
 
 def run(ctx):
     rep = ctx.rep
     vs = ctx.variants()
     rep.require(len(vs) >= 100, 'only %d scanner variants compiled to IR' % len(vs))
-    backs = set(); c_scan = 0
+    backs = set(); backs6 = set(); c_scan = 0
     for v in vs:
         sc = scanner(v)
         if r1(ctx, sc): backs.add(v.backend)
@@ -422,6 +501,8 @@ def run(ctx):
         r3(ctx, sc)
         r4(ctx, sc)
         r5(ctx, sc)
+        if r6(ctx, sc): backs6.add(v.backend)
+    rep.require(backs6 >= {'nr', 'r', 'cxx', 'c99', 'go'}, 'C11.R6 ran only on back ends %s' % sorted(backs6))
     rep.require(backs >= {'nr', 'r', 'cxx', 'c99', 'go'}, 'C11.R1 ran only on back ends %s' % sorted(backs))
     rep.setcount('variants_analysed', len(vs))
     rep.setcount('variants_with_yy_scan_buffer', c_scan)
@@ -429,6 +510,7 @@ def run(ctx):
     rep.floor('C11.R2', 270, 'three tests in yy_scan_buffer of >=90 C variants')
     rep.floor('C11.R3', 90, 'yy_scan_bytes of >=90 C variants')
     rep.floor('C11.R5', 100, 'yyensure_buffer_stack of >=100 variants')
+    rep.floor('C11.R6', 100, 'the one increment of yy_buffer_stack_top in yypush_buffer_state of >=100 variants')
     rep.floor('C11.R4', 850, 'locality + 6 stores + conditional reload in yy_flush_buffer of >=110 variants')
     rep.undecided += ['no loss, duplication or reordering of input across arbitrary histories of switches (value-level)',
                       'that user code does not keep pointers into a buffer across a switch',
